@@ -302,10 +302,95 @@ def _sql(selectable) -> str:
     return ' '.join(str(selectable).split())
 
 
+# ---- factor logic: boolean trees over leaves of one table, the other table and both, on a dense grid ---------------------
+_GRID = {
+    'A': [{'id': i + 1, 'x': x, 'f': f, 's': v, 'b': b, 'd': '2020-01-01', 't': '2020-01-01T00:00:00'}
+          for i, (x, f, v, b) in enumerate([(0, -1.0, 'a', True), (1, 0.5, 'b', False), (2, 1.5, 'x', True), (3, 0.0, 'a', False)])],
+    'B': [{'id': i + 1, 'a': a, 'y': y, 's': v}
+          for i, (a, y, v) in enumerate([(1, 0.5, 'a'), (1, 2.0, 'b'), (2, -1.0, 'x'), (3, 1.0, 'x'), (4, 3.0, 'a'), (2, 0.0, 'b'), (3, -2.0, 'a'), (4, 0.5, 'x')])],
+    'C': [{'id': 1, 'b': 1, 'z': 0}, {'id': 2, 'b': 2, 'z': 3}, {'id': 3, 'b': 5, 'z': 1}, {'id': 4, 'b': 8, 'z': 2}],
+    'D': [{'id': 1, 'value': 2}],
+}
+
+
+def _leaves():
+    col, lit, cmp = A.col, A.lit, A.cmp
+    return {
+        'A': [cmp('gt', col('A', 'x'), lit(1)), cmp('lt', col('A', 'x'), lit(1)), cmp('gt', col('A', 'f'), lit(0.0)), cmp('eq', col('A', 's'), lit('a'))],
+        'B': [cmp('ge', col('B', 'y'), lit(1.0)), cmp('lt', col('B', 'a'), lit(3)), cmp('ne', col('B', 's'), lit('a')), cmp('lt', col('B', 'y'), lit(0.0))],
+        'AB': [cmp('gt', col('A', 'x'), col('B', 'a')), cmp('eq', col('A', 's'), col('B', 's'))],
+        'C': [cmp('gt', col('C', 'z'), lit(0)), cmp('lt', col('C', 'b'), lit(4))],
+    }
+
+
+@st.composite
+def _tree(draw, pools, depth):
+    if depth <= 0 or draw(st.integers(0, 3)) == 0:
+        return draw(st.sampled_from(draw(st.sampled_from(pools))))
+    op = draw(st.sampled_from(['and', 'or', 'or', 'not']))
+    if op == 'not':
+        return A.not_(draw(_tree(pools, depth - 1)))
+    return {'f': op, 'l': draw(_tree(pools, depth - 1)), 'r': draw(_tree(pools, depth - 1))}
+
+
+@st.composite
+def _skeleton(draw, leaves):
+    """Mixed conjunction/disjunction shapes in which what one table is restricted by depends on the *other* operands."""
+    x, y = draw(st.sampled_from([('A', 'B'), ('B', 'A')]))
+    px = lambda: draw(st.sampled_from(leaves[x]))  # noqa: E731
+    py = lambda: draw(st.sampled_from(leaves[y]))  # noqa: E731
+    pxy = lambda: draw(st.sampled_from(leaves['AB']))  # noqa: E731
+
+    def two(op, left, right):
+        return {'f': op, 'l': left, 'r': right} if draw(st.booleans()) else {'f': op, 'l': right, 'r': left}
+
+    kind = draw(st.integers(0, 8))
+    if kind == 0:
+        return two('or', two('and', px(), py()), px())
+    if kind == 1:
+        return two('or', two('and', px(), py()), two('and', px(), py()))
+    if kind == 2:
+        return two('or', two('and', px(), pxy()), px())
+    if kind == 3:
+        return two('and', two('or', px(), py()), px())
+    if kind == 4:
+        return A.not_(two(draw(st.sampled_from(['and', 'or'])), px(), py()))
+    if kind == 5:
+        return two('or', px(), A.not_(px()))
+    if kind == 6:
+        return two('or', two('or', px(), py()), px())
+    if kind == 7:
+        return two('or', two('and', px(), py()), A.not_(px()))
+    return two('and', two('or', two('and', px(), py()), px()), py())
+
+
+@st.composite
+def factor_cases(draw):
+    """Two or three joined tables under a boolean tree (depth <= 3) of one-table and two-table comparisons, as where-condition
+    and/or inside an inner join's condition, over a grid in which every combination of leaf outcomes has a joining pair."""
+    leaves = _leaves()
+    eq_ab = A.cmp('eq', A.col('A', 'id'), A.col('B', 'a'))
+    three = draw(st.integers(0, 3)) == 0
+    pools = [leaves['A'], leaves['B'], leaves['AB']] + ([leaves['C']] if three else [])
+    cond = eq_ab
+    if draw(st.integers(0, 2)) == 0:
+        cond = A.and_(draw(_tree(pools[:3], 2)), eq_ab) if draw(st.booleans()) else A.and_(eq_ab, draw(_tree(pools[:3], 2)))
+    left, right = (A.table('A'), A.table('B')) if draw(st.booleans()) else (A.table('B'), A.table('A'))
+    src = A.join(left, right, 'inner', cond)
+    select = [A.col('A', 'id'), A.col('B', 'id')]
+    if three:
+        src = A.join(src, A.table('C'), 'inner', A.cmp('eq', A.col('C', 'b'), A.col('B', 'id')))
+        select.append(A.col('C', 'z'))
+    pick = draw(st.integers(0, 9))
+    where = None if pick == 0 else draw(_skeleton(leaves)) if pick <= 5 else draw(_tree(pools, 3))
+    return {'stmt': A.query(src, select, where=where), 'data': _GRID}
+
+
 def campaigns(ctx):
     return [
         Campaign('hints', case_strategy(False), check_hints, 450, 4000),
         Campaign('clean', case_strategy(True), check_hints, 450, 4000),
+        Campaign('factors', factor_cases(), check_hints, 200, 2500),
     ]
 
 
